@@ -219,6 +219,10 @@ pub struct BuilderConfig {
     /// index into the key set, None = unsigned
     pub signer: Option<u8>,
     pub force_large: bool,
+    /// stage every file at the SAME source path (rewritten between with_file calls, equal
+    /// mtimes): each entry must still carry the digest/content it had when it was added
+    #[serde(default)]
+    pub reuse_source: bool,
 }
 
 impl BuilderConfig {
@@ -247,6 +251,7 @@ impl BuilderConfig {
             files: vec![],
             signer: None,
             force_large: false,
+            reuse_source: false,
         }
     }
 
@@ -471,7 +476,7 @@ fn build_in(
         };
     }
     for (i, (f, content)) in files.iter().enumerate() {
-        let (src, opts) = stage_file(dir, i, f, content)?;
+        let (src, opts) = stage_file(dir, if cfg.reuse_source { 0 } else { i }, f, content)?;
         b = b.with_file(&src, opts)?;
     }
     rpm::verif_hooks::set_force_large_files(cfg.force_large);
@@ -686,6 +691,30 @@ pub struct CfgParams {
     pub rich_meta: bool,
 }
 
+/// like `config_any`, but a quarter of the cases stage all files at one source path that is
+/// rewritten between the calls, with equal mtimes and few distinct sizes
+pub fn config_any_reuse(p: CfgParams) -> BoxedStrategy<BuilderConfig> {
+    (config_any(p), 0u8..4, 0u32..2_000_000_000)
+        .prop_map(|(mut c, r, mtime)| {
+            if r == 0 && c.files.len() >= 2 {
+                c.reuse_source = true;
+                let base = c.files[0].content.size;
+                for (i, f) in c.files.iter_mut().enumerate() {
+                    f.mtime = mtime;
+                    if i % 3 != 2 {
+                        f.content.size = base;
+                    }
+                    if f.content.kind == 0 {
+                        f.content.kind = 1 + (i as u8 % 2);
+                    }
+                    f.content.seed = f.content.seed.wrapping_add(i as u64);
+                }
+            }
+            c
+        })
+        .boxed()
+}
+
 pub fn config_any(p: CfgParams) -> BoxedStrategy<BuilderConfig> {
     let opt_s = || proptest::option::of(gstr());
     let meta = if p.rich_meta {
@@ -756,6 +785,7 @@ pub fn config_any(p: CfgParams) -> BoxedStrategy<BuilderConfig> {
                     files: dedupe_files(files),
                     signer,
                     force_large,
+                    reuse_source: false,
                 }
             },
         )
